@@ -37,7 +37,8 @@ def hflag(lex, lemma, pos, arg):
 
 
 def tokfacts(t, lex):
-    """what doElision reads of the Terminal t (lex = the CURRENT language's lexicon, as getLemma() consults it)"""
+    """what doElision reads of the Terminal t.  lex = the lexicon isElidableFr consults: since /repo commit 8586a6a
+    the FRENCH lexicon (getLemma(..., "fr")), whatever the current language (it was the current one before)"""
     r = t.realization
     lemma = getattr(t, "lemma", None)
     ct = t.constType
@@ -46,15 +47,16 @@ def tokfacts(t, lex):
         w = first_word(r)
         if w and w[0] in "hH":
             hw = hflag(lex, lemma, ct, w)
-        if r[:1] in ("h", "H"):
-            hr = hflag(lex, lemma, ct, r)
+        # hr is read only when the RAW realization starts with h (look-ahead); elsewhere it is set to hw so that
+        # TokWF's `hR = hW` is not failed by an irrelevant field
+        hr = hflag(lex, lemma, ct, r) if r[:1] in ("h", "H") else hw
     return {"r": r if (r is None or isinstance(r, str)) else str(r), "ct": ct, "lier": bool(t.getProp("lier")),
-            "sg": t.getProp("n") == "s", "hw": hw, "hr": hr,
+            "sg": t.getProp("n") == "s", "hw": hw, "hr": hr, "fr": bool(t.isFr()),
             "lemma": lemma if isinstance(lemma, str) else None}
 
 
 def model_tok(f):
-    return {"r": f["r"], "ct": f["ct"], "lier": f["lier"], "sg": f["sg"], "hw": f["hw"], "hr": f["hr"]}
+    return {"r": f["r"], "ct": f["ct"], "lier": f["lier"], "sg": f["sg"], "hw": f["hw"], "hr": f["hr"], "fr": f["fr"]}
 
 
 class Capture:
@@ -93,7 +95,7 @@ def install(cap):
                     return orig(self, cList)
                 c.n_calls += 1
                 try:
-                    facts = [tokfacts(t, getLexicon()) for t in cList]
+                    facts = [tokfacts(t, getLexicon("fr")) for t in cList]
                 except Exception:  # noqa: never disturb the observed program
                     return orig(self, cList)
                 contr = bool(lang == "en" and hasattr(self, "contraction") and self.contraction == True)  # noqa: E712
@@ -117,7 +119,7 @@ def install(cap):
             c = st["cap"]
             if c is not None and c.keep_texts and len(terminals) >= 2 and len(c.texts) < c.max:
                 try:
-                    c.texts.append({"lang": self.lang(), "toks": [tokfacts(t, getLexicon()) for t in terminals]})
+                    c.texts.append({"lang": self.lang(), "toks": [tokfacts(t, getLexicon("fr")) for t in terminals]})
                 except Exception:  # noqa
                     pass
             return orig_detok(self, terminals)
